@@ -262,7 +262,7 @@ Lemma vec_body_spec s f l r s' :
   safe s s' ∧
   match r with
   | Ok x => compose_post f l s x s'
-  | Err e => e = ENeedsReordering ∧ is_Some (last_len s)
+  | Err e => benign s e
   end.
 Proof.
   intros HI Hf Hok Hnr Hrun.
@@ -302,7 +302,7 @@ Lemma single_body_spec s f var g r s' :
   safe s s' ∧
   match r with
   | Ok x => compose_post f [(var, g)] s x s'
-  | Err e => e = ENeedsReordering ∧ is_Some (last_len s)
+  | Err e => benign s e
   end.
 Proof.
   intros HI Hf Hok Hnr Hrun.
@@ -341,7 +341,7 @@ Proof.
     cbn [bind get] in Hrun. cbv zeta in Hrun.
     apply and_assoc. cut (safe s s' ∧ match r with
                           | Ok x => compose_post f var_sub s x s'
-                          | Err e => e = ENeedsReordering ∧ is_Some (last_len s) end).
+                          | Err e => benign s e end).
     { intros [(?&?&?&?) ?]. by split_and!. }
     destruct var_sub as [|[var g] [|xg rest]].
     + by apply (vec_body_spec s f []).
@@ -369,7 +369,7 @@ Qed.
 
 Theorem compose_dynamic s L f var_sub r s' :
   sifting_ok' →
-  Inv s → Counts s L → rctx s = false →
+  Inv s → Counts s L → rctx s = false → max_nodes s = None →
   valid s f → heldn L (absn f) →
   Forall (fun p => is_Some (vars s !! p.1) ∧ valid s p.2 ∧ heldn L (absn p.2)) var_sub →
   compose f var_sub s = (r, s') →
@@ -381,7 +381,7 @@ Theorem compose_dynamic s L f var_sub r s' :
        valid s' x ∧
        ∀ ρ, denv s' x ρ = denv s f (vsubstv s (list_to_map (reverse var_sub)) ρ).
 Proof.
-  intros Hs HI HC Hc Hf Kf HF Hrun.
+  intros Hs HI HC Hc Hmx Hf Kf HF Hrun.
   change (compose f var_sub) with (try_to_reorder (compose_body f var_sub)) in Hrun.
   assert (Hok : sub_ok s var_sub) by (eapply Forall_impl; [exact HF|]; by intros p (?&?&_)).
   assert (Hheld : sub_held (heldn L) var_sub)
@@ -395,7 +395,7 @@ Qed.
 (** one substitution, spelled out *)
 Corollary compose1_dynamic s L f v g r s' :
   sifting_ok' →
-  Inv s → Counts s L → rctx s = false →
+  Inv s → Counts s L → rctx s = false → max_nodes s = None →
   valid s f → heldn L (absn f) →
   is_Some (vars s !! v) → valid s g → heldn L (absn g) →
   compose f [(v, g)] s = (r, s') →
@@ -408,8 +408,8 @@ Corollary compose1_dynamic s L f v g r s' :
        ∀ ρ, denv s' x ρ =
             denv s f (fun y => if decide (y = v) then denv s g ρ else ρ y).
 Proof.
-  intros Hs HI HC Hc Hf Kf Hv Hg Kg Hrun.
-  destruct (compose_dynamic s L f [(v, g)] r s' Hs HI HC Hc Hf Kf) as [?|(x&?&?&?&?&?&?&?&?&HD)];
+  intros Hs HI HC Hc Hmx Hf Kf Hv Hg Kg Hrun.
+  destruct (compose_dynamic s L f [(v, g)] r s' Hs HI HC Hc Hmx Hf Kf) as [?|(x&?&?&?&?&?&?&?&?&HD)];
     [constructor; [by split_and!|constructor]|done|by left|right].
   exists x. do 8 (split; [done|]). intros ρ. rewrite HD.
   rewrite !denv_aof. apply D_ext. intros l. unfold aof.
@@ -437,7 +437,7 @@ Lemma rename_body_spec s u dvars r s' :
   rename_ u dvars s = (r, s') →
   match r with
   | Ok x => rename_post u dvars s x s'
-  | Err e => e = ENeedsReordering ∧ is_Some (last_len s)
+  | Err e => benign s e
   end.
 Proof.
   intros HI [Hu Hdecl] Hnr Hrun.
@@ -507,7 +507,7 @@ Qed.
 
 Theorem rename_dynamic s L u dvars r s' :
   sifting_ok' →
-  Inv s → Counts s L → rctx s = false →
+  Inv s → Counts s L → rctx s = false → max_nodes s = None →
   valid s u → heldn L (absn u) →
   (∀ x y, (x, y) ∈ dvars → is_Some (vars s !! y)) →
   rename u dvars s = (r, s') →
@@ -519,7 +519,7 @@ Theorem rename_dynamic s L u dvars r s' :
        valid s' x ∧
        ∀ ρ, denv s' x ρ = denv s u (renv (list_to_map (reverse dvars)) ρ).
 Proof.
-  intros Hs HI HC Hc Hu Ku Hd Hrun. unfold rename in Hrun.
+  intros Hs HI HC Hc Hmx Hu Ku Hd Hrun. unfold rename in Hrun.
   destruct (try_to_reorder_correct (rename_ u dvars) (rename_pre u dvars)
               (rename_post u dvars) s L r s' Hs (rename_op_spec _ u dvars Ku) HI HC)
     as [?|(x&?&?&?&?&?&?&?&?&?)]; try done; [by left|right]. by exists x.
@@ -535,7 +535,7 @@ Lemma var_nr s name r s' :
   safe s s' ∧
   match r with
   | Ok w => valid s' w ∧ ∀ ρ, denv s' w ρ = ρ name
-  | Err e => e = ENeedsReordering ∧ is_Some (last_len s)
+  | Err e => benign s e
   end.
 Proof.
   intros HI Hn Hnr Hrun. split; [by apply (csafe_var name s r s')|].
@@ -546,7 +546,7 @@ Proof.
   destruct (spec_run _ _ _ _ (var_op_spec (fun _ => True) name) s0 r1 s1 HI0 Hn
               (or_introl eq_refl) Hrun) as (_&_&_&_&Hr).
   destruct Hcase as [[-> Hc]|[-> ->]].
-  - destruct Hr as [_ [l Hl]]. change (last_len s0) with (last_len s) in Hl.
+  - destruct Hr as [[_ [l Hl]]|[[=] _]]. change (last_len s0) with (last_len s) in Hl.
     destruct Hnr as [?|?]; congruence.
   - destruct r1 as [w|e]; [|done]. destruct Hr as [Hw HD]. split; [done|].
     intros ρ. rewrite <- HD. by apply denv_same.
@@ -559,7 +559,7 @@ Lemma apply_and_nr s u v r s' :
   safe s s' ∧
   match r with
   | Ok x => valid s' x ∧ ∀ a, D s' x a = D s u a && D s v a
-  | Err e => e = ENeedsReordering ∧ is_Some (last_len s)
+  | Err e => benign s e
   end.
 Proof.
   intros HI Hu Hv Hnr. unfold apply, apply_with, ensure.
@@ -586,7 +586,7 @@ Lemma cube_fold_spec : ∀ (dvars : list (nat * bool)) s r0 r s',
   match r with
   | Ok x => valid s' x ∧
       ∀ ρ, denv s' x ρ = true ↔ denv s r0 ρ = true ∧ ∀ v b, (v, b) ∈ dvars → ρ v = b
-  | Err e => e = ENeedsReordering ∧ is_Some (last_len s)
+  | Err e => benign s e
   end.
 Proof.
   induction dvars as [|[v b] l IH]; intros s r0 r s' HI Hr0 HF Hnr.
@@ -618,7 +618,7 @@ Proof.
     by (destruct Hf1 as (E&_); by rewrite E).
   destruct rx as [x|e]; cycle 1.
   { rewrite (bind_err _ _ s e s2) by (by rewrite (bind_ok _ _ _ _ _ Eu)).
-    intros [= <- <-]. destruct Hrx as [-> ?]. split; [done|]. split; [done|]. by apply Hll. }
+    intros [= <- <-]. split; [done|]. exact (benign_frame _ _ _ Hf1 Hrx). }
   rewrite (bind_ok _ _ s x s2) by (by rewrite (bind_ok _ _ _ _ _ Eu)).
   destruct Hrx as [Hx HxD]. intros Hrun.
   assert (HF2 : Forall (fun p : nat * bool => is_Some (vars s2 !! p.1)) l).
@@ -627,7 +627,7 @@ Proof.
   destruct (IH s2 x r s' HI2 Hx HF2 (safe_no_reorder s1 s2 Hs2 Hnr1) Hrun) as [Hs' Hr].
   split; [by apply (safe_trans s s2 s')|].
   destruct r as [y|e]; cycle 1.
-  { destruct Hr as [-> Hl2]. split; [done|]. apply Hll. destruct Hf2 as (E&_). by rewrite <- E. }
+  { exact (benign_frame _ _ _ Hf1 (benign_frame _ _ _ Hf2 Hr)). }
   destruct Hr as [Hy HyD]. split; [done|]. intros ρ. rewrite HyD.
   assert (Hx2 : denv s2 x ρ = true ↔ ρ v = b ∧ denv s r0 ρ = true).
   { unfold denv at 1. rewrite HxD. destruct He2 as (_&_&El2). rewrite <- El2.
@@ -664,7 +664,7 @@ Qed.
 
 Theorem cube_dynamic s L dvars r s' :
   sifting_ok' →
-  Inv s → Counts s L → rctx s = false →
+  Inv s → Counts s L → rctx s = false → max_nodes s = None →
   Forall (fun p => is_Some (vars s !! p.1)) dvars →
   cube dvars s = (r, s') →
   r = Err EOracle ∨
@@ -675,7 +675,7 @@ Theorem cube_dynamic s L dvars r s' :
        valid s' x ∧
        ∀ ρ, denv s' x ρ = true ↔ ∀ v b, (v, b) ∈ dvars → ρ v = b.
 Proof.
-  intros Hs HI HC Hc HF Hrun.
+  intros Hs HI HC Hc Hmx HF Hrun.
   change (cube dvars) with (try_to_reorder (foldM cube_step 1%Z dvars)) in Hrun.
   destruct (try_to_reorder_correct (foldM cube_step 1%Z dvars) (cube_pre dvars)
               (cube_post dvars) s L r s' Hs (cube_op_spec _ dvars) HI HC)
@@ -687,7 +687,7 @@ Qed.
     decorated, the support is read before the decorated [quantify] starts *)
 Theorem apply_quant_dynamic s L op fa u v r s' :
   sifting_ok' →
-  Inv s → Counts s L → rctx s = false →
+  Inv s → Counts s L → rctx s = false → max_nodes s = None →
   (fa = true ∧ op ∈ ["\A"; "forall"]) ∨ (fa = false ∧ op ∈ ["\E"; "exists"]) →
   valid s u → valid s v → heldn L (absn v) →
   apply op u (Some v) None s = (r, s') →
@@ -700,7 +700,7 @@ Theorem apply_quant_dynamic s L op fa u v r s' :
        (∀ y, y ∈ Q ↔ ∃ l, vars s !! y = Some l ∧ depends s u l) ∧
        ∀ ρ, denv s' x ρ = true ↔ qsemv s fa Q v ρ.
 Proof.
-  intros Hs HI HC Hc Hop Hu Hv Kv.
+  intros Hs HI HC Hc Hmx Hop Hu Hv Kv.
   assert (Har : arity_ok op (Some v) None = true ∧
                 find_template apply_table op = Some (TQuant fa OU OV)).
   { destruct Hop as [[-> Hop]|[-> Hop]];
@@ -746,7 +746,7 @@ Qed.
 
 Theorem let_dynamic s L d u r s' :
   sifting_ok' →
-  Inv s → Counts s L → rctx s = false →
+  Inv s → Counts s L → rctx s = false → max_nodes s = None →
   valid s u → heldn L (absn u) → let_ok L s d →
   let_ d u s = (r, s') →
   r = Err EOracle ∨
@@ -757,7 +757,7 @@ Theorem let_dynamic s L d u r s' :
        valid s' x ∧
        ∀ ρ, denv s' x ρ = denv s u (let_sem s d ρ).
 Proof.
-  intros Hs HI HC Hc Hu Ku Hok.
+  intros Hs HI HC Hc Hmx Hu Ku Hok.
   assert (Hnil : ∀ d0, (∀ ρ x, let_sem s d0 ρ x = ρ x) →
             (ret u : MS Z) s = (r, s') →
             r = Err EOracle ∨
